@@ -532,6 +532,9 @@ UPGRADER:
 				}
 				start = i + 1
 				p.nextState(stateBodyChunkSizeLF)
+			case '\n':
+				// a chunk-size line must end with CRLF; a bare LF is not part of a chunk extension.
+				return ErrCRExpected
 			default:
 				if !isHex(c) && p.chunkSize < 0 {
 					chunkSize, err := parseAndValidateChunkSize(string(data[start:i]))
